@@ -197,8 +197,9 @@ def implCount (impl key : String) : Option Nat :=
   single-sequence files, and the documented contract of `Next` ("return false when invalid or reach EOF") ends the
   `for dec.Next() { dec.Decode() }` loop without error when the cut falls inside the HEADER of a later sequence;
 * `flip` / `burst`: when the swept range (for bursts: up to `end`) lies inside the records and trailing CRC of ONE
-  sequence, every corruption is rejected by both (`C04_burst`, `C04_bitflip`, `C04_burst_chain_encoder`); ranges that
-  touch a header are not judged here (header theorems: `C04_header_burst` and its two exceptions). -/
+  sequence, every corruption is rejected — by the check and the decode loop for a single sequence (`C04_burst`,
+  `C04_bitflip`), by the check for a chain (`C04_burst_chain_encoder`); ranges that touch a header are not judged here
+  (header theorems: `C04_header_burst` and its two exceptions). -/
 def propCx (a : IntegArgs) (kind impl : String) : String :=
   let tag := encoderTagOK a
   if tag == some false then "fail:not-encoder-output"
@@ -218,7 +219,12 @@ def propCx (a : IntegArgs) (kind impl : String) : String :=
       else if kind == "flip" ∨ kind == "burst" then
         let inside := spans.any fun sp => sp.1 + 14 ≤ lo ∧ hi ≤ sp.2 ∧ (kind == "flip" ∨ lim ≤ sp.2)
         if !inside then "n/a"
-        else if ci = 0 ∧ dec = 0 then "ok" else "fail:corrupted-file-accepted"
+        -- a chain: only the check is judged (`C04_burst_chain_encoder`). `Decode` of a corrupted EARLIER sequence of a
+        -- chain may run past the declared data size (the last record may overrun it; a corrupted field size in a
+        -- definition makes it long) into the next sequence and compare its checksum with two bytes found THERE: the
+        -- guarantee of the single-sequence theorem (every overrun ends in EOF) is gone, acceptance has probability 2^-16
+        -- per corruption (met in the thorough tier: corpus/integrity.txt). The property speaks of single-sequence files.
+        else if ci = 0 ∧ (dec = 0 ∨ spans.length > 1) then "ok" else "fail:corrupted-file-accepted"
       else "n/a"
     | _, _ => "fail:unparsable-answer"
 
